@@ -468,7 +468,7 @@ class Run(object):
         got = self.tries[t].match(url)
         expected = self.models[t].covered(tuple(labels))
         self.stats.checks += 1
-        if got is not expected:
+        if bool(got) is not expected:  # 'match is true exactly when': truthiness
             self.fail("match", op, got, expected, {"url": r(url), "host": list(labels), "trie": t})
 
     def check_len_iter(self, t, op):
@@ -573,7 +573,7 @@ class Run(object):
             got = trie.match(url)
             expected = model.covered(labels)
             self.stats.checks += 1
-            if got is not expected:
+            if bool(got) is not expected:  # 'match is true exactly when': truthiness
                 self.fail("match", op, got, expected, {"url": r(url), "host": list(labels)})
         minimal = sorted(".".join(a) for a in model.minimal() if not related(a))
         self.stats.checks += 2
@@ -668,7 +668,7 @@ class Run(object):
                 labels = ("flood%d" % i, tail)
                 got = trie.match("http://flood%d.%s/" % (i, tail))
                 stats.checks += 1
-                if got is not model.covered(labels):
+                if bool(got) is not model.covered(labels):
                     self.fail("match", op, got, model.covered(labels), {"host": list(labels)})
             stats.probe("flood_of_distinct_lookups")
             stats.event("%s|flood|%d" % (ev.get("c"), n))
@@ -682,7 +682,7 @@ class Run(object):
                 labels = ("flood%d" % i, tail)
                 got = trie.match("http://flood%d.%s/" % (i, tail))
                 stats.checks += 1
-                if got is not model.covered(labels):
+                if bool(got) is not model.covered(labels):
                     self.fail("match", op, got, model.covered(labels), {"host": list(labels)})
             stats.probe("flood_of_distinct_lookups")
             stats.event("%s|flood|%d" % (ev.get("c"), n))
@@ -690,7 +690,7 @@ class Run(object):
         elif op == "match_hostless":
             got = self.tries[t].match(ev["url"])
             stats.checks += 1
-            if got is not False:
+            if bool(got) is not False:
                 self.fail("match", op, got, False, {"url": ev["url"]})
             stats.event("%s|match_hostless|%s" % (ev.get("c"), r(ev["url"])))
         elif op == "len":
